@@ -3,7 +3,9 @@ use crate::engine::{close, finish, guarded, par_blocks, RunInfo, Stats, Tier};
 use ndarray::{ArrayD, IxDyn, ShapeBuilder};
 use routee_compass_core::model::unit::as_f64::AsF64;
 use routee_compass_core::model::unit::*;
-use routee_compass_powertrain::routee::prediction::interpolation::interp::{Interp1D, Interp2D, Interp3D, InterpND, Interpolator, Strategy};
+use routee_compass_powertrain::routee::prediction::interpolation::interp::{
+    Interp1D, Interp2D, Interp3D, InterpND, Interpolator, Strategy,
+};
 use routee_compass_powertrain::routee::prediction::interpolation::interpolation_speed_grade_model::InterpolationSpeedGradeModel;
 use routee_compass_powertrain::routee::prediction::interpolation::utils::linspace;
 use routee_compass_powertrain::routee::prediction::model_type::ModelType;
@@ -14,7 +16,15 @@ use serde_json::{json, Value};
 fn axes() -> Vec<Vec<f64>> {
     // the last two are uneven axes whose first spacing equals their mean spacing (they look even to a test that compares only
     // those two)
-    vec![vec![0.0, 1.0], vec![0.0, 1.0, 2.0], vec![0.0, 0.5, 2.0], vec![-1.0, 0.0, 0.1, 5.0], vec![2.0, 3.0, 4.0, 5.0], vec![0.0, 10.0, 12.0, 14.0, 16.0, 50.0], vec![0.0, 2.0, 3.0, 4.0, 11.0]]
+    vec![
+        vec![0.0, 1.0],
+        vec![0.0, 1.0, 2.0],
+        vec![0.0, 0.5, 2.0],
+        vec![-1.0, 0.0, 0.1, 5.0],
+        vec![2.0, 3.0, 4.0, 5.0],
+        vec![0.0, 10.0, 12.0, 14.0, 16.0, 50.0],
+        vec![0.0, 2.0, 3.0, 4.0, 11.0],
+    ]
 }
 
 /// reference: multilinear interpolation inside the cell that holds the point (cell found by a linear scan of every axis)
@@ -90,13 +100,20 @@ fn multilinear(code: u64, x: &[f64]) -> f64 {
     s
 }
 fn wiggly(x: &[f64]) -> f64 {
-    x.iter().enumerate().map(|(i, v)| (v * (i as f64 + 1.3)).sin() + v * v * 0.1).sum::<f64>() + x.iter().product::<f64>()
+    x.iter()
+        .enumerate()
+        .map(|(i, v)| (v * (i as f64 + 1.3)).sin() + v * v * 0.1)
+        .sum::<f64>()
+        + x.iter().product::<f64>()
 }
 
 /// the same table of values in two further memory layouts (the values an index addresses are the same; only the order in
 /// which the elements lie in memory differs): column-major, and the layout of a table built with its first axis last and
 /// then turned round
-fn build_layouts(grid: &[Vec<f64>], f: &dyn Fn(&[f64]) -> f64) -> Vec<(&'static str, Interpolator)> {
+fn build_layouts(
+    grid: &[Vec<f64>],
+    f: &dyn Fn(&[f64]) -> f64,
+) -> Vec<(&'static str, Interpolator)> {
     let n = grid.len();
     let shape: Vec<usize> = grid.iter().map(|g| g.len()).collect();
     let fill = |values: &mut ArrayD<f64>| {
@@ -107,7 +124,10 @@ fn build_layouts(grid: &[Vec<f64>], f: &dyn Fn(&[f64]) -> f64) -> Vec<(&'static 
     };
     let mut col = ArrayD::<f64>::zeros(IxDyn(&shape).f());
     fill(&mut col);
-    let mut out = vec![("nd_column_major", Interpolator::InterpND(InterpND::new(grid.to_vec(), col).expect("InterpND::new")))];
+    let mut out = vec![(
+        "nd_column_major",
+        Interpolator::InterpND(InterpND::new(grid.to_vec(), col).expect("InterpND::new")),
+    )];
     if n >= 2 {
         let mut rot_shape: Vec<usize> = shape[1..].to_vec();
         rot_shape.push(shape[0]);
@@ -116,7 +136,10 @@ fn build_layouts(grid: &[Vec<f64>], f: &dyn Fn(&[f64]) -> f64) -> Vec<(&'static 
         let mut rot = ArrayD::<f64>::zeros(IxDyn(&rot_shape)).permuted_axes(IxDyn(&perm));
         assert_eq!(rot.shape(), &shape[..]);
         fill(&mut rot);
-        out.push(("nd_first_axis_last_in_memory", Interpolator::InterpND(InterpND::new(grid.to_vec(), rot).expect("InterpND::new"))));
+        out.push((
+            "nd_first_axis_last_in_memory",
+            Interpolator::InterpND(InterpND::new(grid.to_vec(), rot).expect("InterpND::new")),
+        ));
     }
     out
 }
@@ -131,14 +154,35 @@ fn build(grid: &[Vec<f64>], f: &dyn Fn(&[f64]) -> f64) -> (Option<Interpolator>,
     }
     let nd = Interpolator::InterpND(InterpND::new(grid.to_vec(), values).expect("InterpND::new"));
     let fixed = match n {
-        1 => Some(Interpolator::Interp1D(Interp1D::new(grid[0].clone(), grid[0].iter().map(|x| f(&[*x])).collect()).expect("Interp1D"))),
-        2 => Some(Interpolator::Interp2D(Interp2D::new(grid[0].clone(), grid[1].clone(), grid[0].iter().map(|x| grid[1].iter().map(|y| f(&[*x, *y])).collect()).collect()).expect("Interp2D"))),
+        1 => Some(Interpolator::Interp1D(
+            Interp1D::new(grid[0].clone(), grid[0].iter().map(|x| f(&[*x])).collect())
+                .expect("Interp1D"),
+        )),
+        2 => Some(Interpolator::Interp2D(
+            Interp2D::new(
+                grid[0].clone(),
+                grid[1].clone(),
+                grid[0]
+                    .iter()
+                    .map(|x| grid[1].iter().map(|y| f(&[*x, *y])).collect())
+                    .collect(),
+            )
+            .expect("Interp2D"),
+        )),
         3 => Some(Interpolator::Interp3D(
             Interp3D::new(
                 grid[0].clone(),
                 grid[1].clone(),
                 grid[2].clone(),
-                grid[0].iter().map(|x| grid[1].iter().map(|y| grid[2].iter().map(|z| f(&[*x, *y, *z])).collect()).collect()).collect(),
+                grid[0]
+                    .iter()
+                    .map(|x| {
+                        grid[1]
+                            .iter()
+                            .map(|y| grid[2].iter().map(|z| f(&[*x, *y, *z])).collect())
+                            .collect()
+                    })
+                    .collect(),
             )
             .expect("Interp3D"),
         )),
@@ -153,8 +197,12 @@ fn generic(tier: Tier, st: &mut Stats) {
         // axis combinations: rotate through the axis alphabet
         let combos: Vec<Vec<usize>> = match n {
             1 => (0..ax.len()).map(|a| vec![a]).collect(),
-            2 => (0..ax.len()).flat_map(|a| (0..ax.len()).map(move |b| vec![a, b])).collect(),
-            3 => (0..ax.len()).map(|a| vec![a, (a + 1) % ax.len(), (a + 3) % ax.len()]).collect(),
+            2 => (0..ax.len())
+                .flat_map(|a| (0..ax.len()).map(move |b| vec![a, b]))
+                .collect(),
+            3 => (0..ax.len())
+                .map(|a| vec![a, (a + 1) % ax.len(), (a + 3) % ax.len()])
+                .collect(),
             _ => vec![vec![0, 1, 2, 3], vec![3, 2, 1, 0], vec![2, 2, 0, 4]],
         };
         let n_codes: u64 = 3u64.pow(1 << n);
@@ -179,7 +227,13 @@ fn generic(tier: Tier, st: &mut Stats) {
                     .map(|(pa, g)| {
                         let k = g.len();
                         // pa = knots (k), then (midpoint, quarter) per cell, then four outside points
-                        vec![pa[0], pa[k - 1], pa[k], pa[(k + 3).min(pa.len() - 5)], pa[pa.len() - 2]]
+                        vec![
+                            pa[0],
+                            pa[k - 1],
+                            pa[k],
+                            pa[(k + 3).min(pa.len() - 5)],
+                            pa[pa.len() - 2],
+                        ]
                     })
                     .collect()
             } else {
@@ -208,7 +262,9 @@ fn generic(tier: Tier, st: &mut Stats) {
                 for base in 0..3 {
                     for i in 0..n {
                         for (v, inside) in per_axis[i].iter() {
-                            let mut p: Vec<f64> = (0..n).map(|j| per_axis[j][(base * 2 + j) % grid[j].len()].0).collect();
+                            let mut p: Vec<f64> = (0..n)
+                                .map(|j| per_axis[j][(base * 2 + j) % grid[j].len()].0)
+                                .collect();
                             p[i] = *v;
                             points.push((p, *inside));
                         }
@@ -228,7 +284,8 @@ fn generic(tier: Tier, st: &mut Stats) {
                     st.traces += 1;
                     let case = || json!({"kind": "generic", "grid": grid, "coefficient_code": code, "point": p});
                     let want = f(p);
-                    let mut its: Vec<(&str, Option<&Interpolator>)> = vec![("fixed", fixed.as_ref()), ("nd", Some(&nd))];
+                    let mut its: Vec<(&str, Option<&Interpolator>)> =
+                        vec![("fixed", fixed.as_ref()), ("nd", Some(&nd))];
                     its.extend(layouts.iter().map(|(n, i)| (*n, Some(i))));
                     for (name, it) in its {
                         let it = match it {
@@ -237,19 +294,44 @@ fn generic(tier: Tier, st: &mut Stats) {
                         };
                         let comp = format!("interp{}d.{}", n, name);
                         match guarded(|| it.interpolate(p, &Strategy::Linear)) {
-                            Err(pn) => st.violation(&comp, "no_panic", n as u64, || pn.clone(), case),
+                            Err(pn) => {
+                                st.violation(&comp, "no_panic", n as u64, || pn.clone(), case)
+                            }
                             Ok(Ok(v)) => {
                                 if !*inside {
-                                    st.violation(&comp, "outside_grid_is_rejected", n as u64, || format!("point {:?} outside the grid gave {}", p, v), case);
+                                    st.violation(
+                                        &comp,
+                                        "outside_grid_is_rejected",
+                                        n as u64,
+                                        || format!("point {:?} outside the grid gave {}", p, v),
+                                        case,
+                                    );
                                 } else if close(v, want, 1e-9) || (v - want).abs() < 1e-9 {
                                     st.pass("reproduces_multilinear_function");
                                 } else {
-                                    st.violation(&comp, "reproduces_multilinear_function", n as u64, || format!("f({:?}) = {} but interpolator gives {}", p, want, v), case);
+                                    st.violation(
+                                        &comp,
+                                        "reproduces_multilinear_function",
+                                        n as u64,
+                                        || {
+                                            format!(
+                                                "f({:?}) = {} but interpolator gives {}",
+                                                p, want, v
+                                            )
+                                        },
+                                        case,
+                                    );
                                 }
                             }
                             Ok(Err(e)) => {
                                 if *inside {
-                                    st.violation(&comp, "inside_grid_is_accepted", n as u64, || e.clone(), case);
+                                    st.violation(
+                                        &comp,
+                                        "inside_grid_is_accepted",
+                                        n as u64,
+                                        || e.clone(),
+                                        case,
+                                    );
                                 } else {
                                     st.pass("outside_grid_is_rejected");
                                 }
@@ -265,7 +347,8 @@ fn generic(tier: Tier, st: &mut Stats) {
             let layouts = build_layouts(&grid, &wiggly);
             for (p, _) in points.iter().filter(|p| p.1) {
                 let want = ref_interp(&grid, &wiggly, p);
-                let mut its: Vec<(&str, Option<&Interpolator>)> = vec![("fixed", fixed.as_ref()), ("nd", Some(&nd))];
+                let mut its: Vec<(&str, Option<&Interpolator>)> =
+                    vec![("fixed", fixed.as_ref()), ("nd", Some(&nd))];
                 its.extend(layouts.iter().map(|(n, i)| (*n, Some(i))));
                 for (name, it) in its {
                     let it = match it {
@@ -278,8 +361,21 @@ fn generic(tier: Tier, st: &mut Stats) {
                     let comp = format!("interp{}d.{}", n, name);
                     let case = || json!({"kind": "generic_agreement", "grid": grid, "point": p});
                     match guarded(|| it.interpolate(p, &Strategy::Linear)) {
-                        Ok(Ok(v)) if close(v, want, 1e-9) => st.pass("interpolates_in_the_cell_that_holds_the_point"),
-                        Ok(other) => st.violation(&comp, "interpolates_in_the_cell_that_holds_the_point", n as u64, || format!("at {:?}: {:?}, the cell that holds the point gives {}", p, other, want), case),
+                        Ok(Ok(v)) if close(v, want, 1e-9) => {
+                            st.pass("interpolates_in_the_cell_that_holds_the_point")
+                        }
+                        Ok(other) => st.violation(
+                            &comp,
+                            "interpolates_in_the_cell_that_holds_the_point",
+                            n as u64,
+                            || {
+                                format!(
+                                    "at {:?}: {:?}, the cell that holds the point gives {}",
+                                    p, other, want
+                                )
+                            },
+                            case,
+                        ),
                         Err(pn) => st.violation(&comp, "no_panic", n as u64, || pn.clone(), case),
                     }
                 }
@@ -289,17 +385,34 @@ fn generic(tier: Tier, st: &mut Stats) {
                     st.evaluations += 1;
                     st.transitions += 1;
                     let _ = inside;
-                    let (a, b) = match (guarded(|| fx.interpolate(p, &Strategy::Linear)), guarded(|| nd.interpolate(p, &Strategy::Linear))) {
+                    let (a, b) = match (
+                        guarded(|| fx.interpolate(p, &Strategy::Linear)),
+                        guarded(|| nd.interpolate(p, &Strategy::Linear)),
+                    ) {
                         (Ok(a), Ok(b)) => (a, b),
                         (a, b) => {
                             let msg = format!("{:?} / {:?}", a.err(), b.err());
-                            st.violation(&format!("interp{}d.fixed_vs_nd", n), "no_panic", n as u64, || msg.clone(), || json!({"kind": "generic_agreement", "grid": grid, "point": p}));
+                            st.violation(
+                                &format!("interp{}d.fixed_vs_nd", n),
+                                "no_panic",
+                                n as u64,
+                                || msg.clone(),
+                                || json!({"kind": "generic_agreement", "grid": grid, "point": p}),
+                            );
                             continue;
                         }
                     };
                     match (a, b) {
-                        (Ok(a), Ok(b)) if close(a, b, 1e-9) => st.pass("interpolators_agree_on_same_data"),
-                        (a, b) => st.violation(&format!("interp{}d.fixed_vs_nd", n), "interpolators_agree_on_same_data", n as u64, || format!("{:?} vs {:?}", a, b), || json!({"kind": "generic_agreement", "grid": grid, "point": p})),
+                        (Ok(a), Ok(b)) if close(a, b, 1e-9) => {
+                            st.pass("interpolators_agree_on_same_data")
+                        }
+                        (a, b) => st.violation(
+                            &format!("interp{}d.fixed_vs_nd", n),
+                            "interpolators_agree_on_same_data",
+                            n as u64,
+                            || format!("{:?} vs {:?}", a, b),
+                            || json!({"kind": "generic_agreement", "grid": grid, "point": p}),
+                        ),
                     }
                 }
             }
@@ -310,20 +423,50 @@ fn generic(tier: Tier, st: &mut Stats) {
 fn model_files(tier: Tier) -> Vec<(String, std::path::PathBuf, EnergyRateUnit)> {
     let dir = std::path::Path::new("/repo/python/nrel/routee/compass/resources/models");
     let mut names: Vec<String> = std::fs::read_dir(dir)
-        .map(|rd| rd.filter_map(|e| e.ok()).map(|e| e.file_name().to_string_lossy().to_string()).filter(|n| n.ends_with(".bin")).collect())
+        .map(|rd| {
+            rd.filter_map(|e| e.ok())
+                .map(|e| e.file_name().to_string_lossy().to_string())
+                .filter(|n| n.ends_with(".bin"))
+                .collect()
+        })
         .unwrap_or_default();
     names.sort();
     let pick: Vec<String> = match tier {
         Tier::Thorough => names,
         Tier::Quick => names
             .into_iter()
-            .filter(|n| ["2016_TOYOTA_Camry_4cyl_2WD.bin", "2017_CHEVROLET_Bolt.bin", "2016_CHEVROLET_Volt_Charge_Depleting.bin", "2016_CHEVROLET_Volt_Charge_Sustaining.bin", "2020_Chevrolet_Colorado_2WD_Diesel.bin", "2022_Tesla_Model_3_RWD.bin"].contains(&n.as_str()))
+            .filter(|n| {
+                [
+                    "2016_TOYOTA_Camry_4cyl_2WD.bin",
+                    "2017_CHEVROLET_Bolt.bin",
+                    "2016_CHEVROLET_Volt_Charge_Depleting.bin",
+                    "2016_CHEVROLET_Volt_Charge_Sustaining.bin",
+                    "2020_Chevrolet_Colorado_2WD_Diesel.bin",
+                    "2022_Tesla_Model_3_RWD.bin",
+                ]
+                .contains(&n.as_str())
+            })
             .collect(),
     };
     pick.into_iter()
         .map(|n| {
-            let electric = n.contains("Bolt") || n.contains("Depleting") || n.contains("Tesla") || n.contains("Leaf") || n.contains("EV") || n.contains("MiEV") || n.contains("Zoe") || n.contains("Lightning") || n.contains("Recharge") || n.contains("i3");
-            let unit = if electric { EnergyRateUnit::KilowattHoursPerMile } else if n.contains("Diesel") || n.contains("TDI") || n.contains("328d") { EnergyRateUnit::GallonsDieselPerMile } else { EnergyRateUnit::GallonsGasolinePerMile };
+            let electric = n.contains("Bolt")
+                || n.contains("Depleting")
+                || n.contains("Tesla")
+                || n.contains("Leaf")
+                || n.contains("EV")
+                || n.contains("MiEV")
+                || n.contains("Zoe")
+                || n.contains("Lightning")
+                || n.contains("Recharge")
+                || n.contains("i3");
+            let unit = if electric {
+                EnergyRateUnit::KilowattHoursPerMile
+            } else if n.contains("Diesel") || n.contains("TDI") || n.contains("328d") {
+                EnergyRateUnit::GallonsDieselPerMile
+            } else {
+                EnergyRateUnit::GallonsGasolinePerMile
+            };
             (n.clone(), dir.join(&n), unit)
         })
         .collect()
@@ -331,28 +474,82 @@ fn model_files(tier: Tier) -> Vec<(String, std::path::PathBuf, EnergyRateUnit)> 
 
 /// `su`, `gu`, `eru`: the units the model is declared with (the same for the interpolated and the separately loaded
 /// underlying model); speed, grade and rate units built on different distance units must not change the comparison
-fn check_model(name: &str, path: &std::path::Path, su: SpeedUnit, gu: GradeUnit, eru: EnergyRateUnit, tier: Tier, st: &mut Stats) {
+fn check_model(
+    name: &str,
+    path: &std::path::Path,
+    su: SpeedUnit,
+    gu: GradeUnit,
+    eru: EnergyRateUnit,
+    tier: Tier,
+    st: &mut Stats,
+) {
     let underlying = match SmartcoreSpeedGradeModel::new(&path, su, gu, eru) {
         Ok(m) => m,
         Err(e) => {
-            st.violation("harness", "load_underlying_model", 0, || e.to_string(), || json!({"model": name}));
+            st.violation(
+                "harness",
+                "load_underlying_model",
+                0,
+                || e.to_string(),
+                || json!({"model": name}),
+            );
             return;
         }
     };
     // (speed lo, hi, bins, grade lo, hi, bins)
     // (0..160, 101) and (-0.2..0.2, 21) are grids whose accumulated last knot falls a few ulp short of the nominal bound
-        let grids: Vec<(f64, f64, usize, f64, f64, usize)> = tier.pick(vec![(0.0, 100.0, 101, -0.2, 0.2, 41), (10.0, 70.0, 5, -0.1, 0.1, 3), (0.0, 160.0, 101, -0.2, 0.2, 21)], vec![(0.0, 100.0, 101, -0.2, 0.2, 41), (10.0, 70.0, 5, -0.1, 0.1, 3), (0.0, 160.0, 101, -0.2, 0.2, 21), (5.0, 85.0, 9, -0.15, 0.05, 6), (20.0, 21.0, 2, 0.0, 0.01, 2), (0.0, 0.7, 8, -0.3, 0.3, 7), (1.0, 2.0, 11, -0.1, 0.2, 4)]);
+    let grids: Vec<(f64, f64, usize, f64, f64, usize)> = tier.pick(
+        vec![
+            (0.0, 100.0, 101, -0.2, 0.2, 41),
+            (10.0, 70.0, 5, -0.1, 0.1, 3),
+            (0.0, 160.0, 101, -0.2, 0.2, 21),
+        ],
+        vec![
+            (0.0, 100.0, 101, -0.2, 0.2, 41),
+            (10.0, 70.0, 5, -0.1, 0.1, 3),
+            (0.0, 160.0, 101, -0.2, 0.2, 21),
+            (5.0, 85.0, 9, -0.15, 0.05, 6),
+            (20.0, 21.0, 2, 0.0, 0.01, 2),
+            (0.0, 0.7, 8, -0.3, 0.3, 7),
+            (1.0, 2.0, 11, -0.1, 0.2, 4),
+        ],
+    );
     for (slo, shi, sb, glo, ghi, gb) in grids {
         st.states += 1;
         st.nontrivial += 1;
-        let model = match guarded(|| InterpolationSpeedGradeModel::new(&path, ModelType::Smartcore, name.to_string(), su, (Speed::new(slo), Speed::new(shi)), sb, gu, (Grade::new(glo), Grade::new(ghi)), gb, eru)) {
+        let model = match guarded(|| {
+            InterpolationSpeedGradeModel::new(
+                &path,
+                ModelType::Smartcore,
+                name.to_string(),
+                su,
+                (Speed::new(slo), Speed::new(shi)),
+                sb,
+                gu,
+                (Grade::new(glo), Grade::new(ghi)),
+                gb,
+                eru,
+            )
+        }) {
             Ok(Ok(m)) => m,
             Ok(Err(e)) => {
-                st.violation("interpolated_model", "builds", 0, || e.to_string(), || json!({"model": name, "grid": [slo, shi, sb as f64, glo, ghi, gb as f64]}));
+                st.violation(
+                    "interpolated_model",
+                    "builds",
+                    0,
+                    || e.to_string(),
+                    || json!({"model": name, "grid": [slo, shi, sb as f64, glo, ghi, gb as f64]}),
+                );
                 continue;
             }
             Err(p) => {
-                st.violation("interpolated_model", "builds_no_panic", 0, || p.clone(), || json!({"model": name}));
+                st.violation(
+                    "interpolated_model",
+                    "builds_no_panic",
+                    0,
+                    || p.clone(),
+                    || json!({"model": name}),
+                );
                 continue;
             }
         };
@@ -367,14 +564,33 @@ fn check_model(name: &str, path: &std::path::Path, su: SpeedUnit, gu: GradeUnit,
             grade_upper_bound: Grade::new(ghi),
             grade_bins: gb,
         };
-        let loaded = match guarded(|| routee_compass_powertrain::routee::prediction::load_prediction_model(name.to_string(), &path, mt.clone(), su, gu, eru, Some(EnergyRate::new(0.02)), Some(1.0), None).map_err(|e| e.to_string())) {
+        let loaded = match guarded(|| {
+            routee_compass_powertrain::routee::prediction::load_prediction_model(
+                name.to_string(),
+                &path,
+                mt.clone(),
+                su,
+                gu,
+                eru,
+                Some(EnergyRate::new(0.02)),
+                Some(1.0),
+                None,
+            )
+            .map_err(|e| e.to_string())
+        }) {
             Ok(Ok(r)) => Some(r),
             Ok(Err(e)) => {
                 st.violation("interpolated_model.loader", "builds", 0, || e.clone(), || json!({"kind": "model", "model": name, "grid": [slo, shi, sb as f64, glo, ghi, gb as f64]}));
                 None
             }
             Err(p) => {
-                st.violation("interpolated_model.loader", "builds_no_panic", 0, || p.clone(), || json!({"kind": "model", "model": name}));
+                st.violation(
+                    "interpolated_model.loader",
+                    "builds_no_panic",
+                    0,
+                    || p.clone(),
+                    || json!({"kind": "model", "model": name}),
+                );
                 None
             }
         };
@@ -389,11 +605,22 @@ fn check_model(name: &str, path: &std::path::Path, su: SpeedUnit, gu: GradeUnit,
                         if (ds > 0.0) && (i + 1 >= sb || j + 1 >= gb) {
                             continue;
                         }
-                        let (sq, gq) = if ds > 0.0 { (s + (sxx[i + 1] - s) * ds, g + (gxx[j + 1] - g) * dg) } else { (*s, *g) };
+                        let (sq, gq) = if ds > 0.0 {
+                            (s + (sxx[i + 1] - s) * ds, g + (gxx[j + 1] - g) * dg)
+                        } else {
+                            (*s, *g)
+                        };
                         st.evaluations += 1;
                         st.transitions += 2;
-                        let a = model.predict((Speed::new(sq), su), (Grade::new(gq), gu)).map(|r| r.0.as_f64()).unwrap_or(f64::NAN);
-                        let b = rec.prediction_model.predict((Speed::new(sq), su), (Grade::new(gq), gu)).map(|r| r.0.as_f64()).unwrap_or(f64::NAN);
+                        let a = model
+                            .predict((Speed::new(sq), su), (Grade::new(gq), gu))
+                            .map(|r| r.0.as_f64())
+                            .unwrap_or(f64::NAN);
+                        let b = rec
+                            .prediction_model
+                            .predict((Speed::new(sq), su), (Grade::new(gq), gu))
+                            .map(|r| r.0.as_f64())
+                            .unwrap_or(f64::NAN);
                         if !close(a, b, 1e-9) {
                             all_same = false;
                             st.violation("interpolated_model.loader", "loaded_model_is_the_configured_model", (i * 100 + j) as u64, || format!("at ({}, {}): constructed directly {} loaded through load_prediction_model {}", sq, gq, a, b), || json!({"kind": "model", "model": name, "grid": [slo, shi, sb as f64, glo, ghi, gb as f64], "declared_units": [su.to_string(), gu.to_string(), eru.to_string()], "speed": sq, "grade": gq}));
@@ -407,11 +634,31 @@ fn check_model(name: &str, path: &std::path::Path, su: SpeedUnit, gu: GradeUnit,
         }
         let sx = linspace(slo, shi, sb);
         let gx = linspace(glo, ghi, gb);
-        let under = |s: f64, g: f64| underlying.predict((Speed::new(s), su), (Grade::new(g), gu)).map(|r| r.0.as_f64()).unwrap_or(f64::NAN);
-        let interp = |s: f64, g: f64| guarded(|| model.predict((Speed::new(s), su), (Grade::new(g), gu)).map(|r| r.0.as_f64()).map_err(|e| e.to_string()));
+        let under = |s: f64, g: f64| {
+            underlying
+                .predict((Speed::new(s), su), (Grade::new(g), gu))
+                .map(|r| r.0.as_f64())
+                .unwrap_or(f64::NAN)
+        };
+        let interp = |s: f64, g: f64| {
+            guarded(|| {
+                model
+                    .predict((Speed::new(s), su), (Grade::new(g), gu))
+                    .map(|r| r.0.as_f64())
+                    .map_err(|e| e.to_string())
+            })
+        };
         // corner values of the underlying model on the grid (computed lazily per cell)
-        let cells_s: Vec<usize> = if sb > 12 && tier == Tier::Quick { vec![0, 1, sb / 6, sb / 2, sb - 3, sb - 2] } else { (0..sb - 1).collect() };
-        let cells_g: Vec<usize> = if gb > 12 && tier == Tier::Quick { vec![0, 1, gb / 2, gb - 3, gb - 2] } else { (0..gb - 1).collect() };
+        let cells_s: Vec<usize> = if sb > 12 && tier == Tier::Quick {
+            vec![0, 1, sb / 6, sb / 2, sb - 3, sb - 2]
+        } else {
+            (0..sb - 1).collect()
+        };
+        let cells_g: Vec<usize> = if gb > 12 && tier == Tier::Quick {
+            vec![0, 1, gb / 2, gb - 3, gb - 2]
+        } else {
+            (0..gb - 1).collect()
+        };
         let grid_desc = json!([slo, shi, sb, glo, ghi, gb]);
         for ci in cells_s.iter() {
             for cj in cells_g.iter() {
@@ -432,8 +679,20 @@ fn check_model(name: &str, path: &std::path::Path, su: SpeedUnit, gu: GradeUnit,
                         let case = || json!({"kind": "model", "model": name, "grid": grid_desc, "declared_units": [su.to_string(), gu.to_string(), eru.to_string()], "speed": s, "grade": g});
                         let size = (*ci * 100 + *cj) as u64;
                         match interp(s, g) {
-                            Err(p) => st.violation("interpolated_model", "no_panic", size, || p.clone(), case),
-                            Ok(Err(e)) => st.violation("interpolated_model", "predicts_inside_grid", size, || e.clone(), case),
+                            Err(p) => st.violation(
+                                "interpolated_model",
+                                "no_panic",
+                                size,
+                                || p.clone(),
+                                case,
+                            ),
+                            Ok(Err(e)) => st.violation(
+                                "interpolated_model",
+                                "predicts_inside_grid",
+                                size,
+                                || e.clone(),
+                                case,
+                            ),
                             Ok(Ok(v)) => {
                                 if v >= cmin - slack && v <= cmax + slack {
                                     st.pass("between_surrounding_grid_values");
@@ -456,18 +715,47 @@ fn check_model(name: &str, path: &std::path::Path, su: SpeedUnit, gu: GradeUnit,
                 let eps_s = 1e-7;
                 let eps_g = 1e-9;
                 let lip = (cmax - cmin).abs();
-                for (a, b, what) in [((s1 - eps_s, g0 + (g1 - g0) * 0.3), (s1 + eps_s, g0 + (g1 - g0) * 0.3), "speed_line"), ((s0 + (s1 - s0) * 0.3, g1 - eps_g), (s0 + (s1 - s0) * 0.3, g1 + eps_g), "grade_line")] {
+                for (a, b, what) in [
+                    (
+                        (s1 - eps_s, g0 + (g1 - g0) * 0.3),
+                        (s1 + eps_s, g0 + (g1 - g0) * 0.3),
+                        "speed_line",
+                    ),
+                    (
+                        (s0 + (s1 - s0) * 0.3, g1 - eps_g),
+                        (s0 + (s1 - s0) * 0.3, g1 + eps_g),
+                        "grade_line",
+                    ),
+                ] {
                     st.evaluations += 1;
                     st.transitions += 2;
                     if let (Ok(Ok(va)), Ok(Ok(vb))) = (interp(a.0, a.1), interp(b.0, b.1)) {
                         // the neighbouring cell may be steeper: allow the larger of both cells' ranges per cell width
-                        let bound = 10.0 * (lip + 1e-3) * (2.0 * eps_s / (s1 - s0)).max(2.0 * eps_g / (g1 - g0)) + 1e-9 * (1.0 + va.abs());
+                        let bound = 10.0
+                            * (lip + 1e-3)
+                            * (2.0 * eps_s / (s1 - s0)).max(2.0 * eps_g / (g1 - g0))
+                            + 1e-9 * (1.0 + va.abs());
                         let neighbour_range = {
-                            let (ns0, ns1, ng0, ng1) = if what == "speed_line" && *ci + 2 < sb { (sx[*ci + 1], sx[*ci + 2], g0, g1) } else if what == "grade_line" && *cj + 2 < gb { (s0, s1, gx[*cj + 1], gx[*cj + 2]) } else { (s0, s1, g0, g1) };
-                            let c = [under(ns0, ng0), under(ns0, ng1), under(ns1, ng0), under(ns1, ng1)];
-                            c.iter().cloned().fold(f64::NEG_INFINITY, f64::max) - c.iter().cloned().fold(f64::INFINITY, f64::min)
+                            let (ns0, ns1, ng0, ng1) = if what == "speed_line" && *ci + 2 < sb {
+                                (sx[*ci + 1], sx[*ci + 2], g0, g1)
+                            } else if what == "grade_line" && *cj + 2 < gb {
+                                (s0, s1, gx[*cj + 1], gx[*cj + 2])
+                            } else {
+                                (s0, s1, g0, g1)
+                            };
+                            let c = [
+                                under(ns0, ng0),
+                                under(ns0, ng1),
+                                under(ns1, ng0),
+                                under(ns1, ng1),
+                            ];
+                            c.iter().cloned().fold(f64::NEG_INFINITY, f64::max)
+                                - c.iter().cloned().fold(f64::INFINITY, f64::min)
                         };
-                        let bound = bound + 10.0 * neighbour_range * (2.0 * eps_s / (s1 - s0)).max(2.0 * eps_g / (g1 - g0));
+                        let bound = bound
+                            + 10.0
+                                * neighbour_range
+                                * (2.0 * eps_s / (s1 - s0)).max(2.0 * eps_g / (g1 - g0));
                         if (va - vb).abs() <= bound {
                             st.pass("continuous_across_cell_borders");
                         } else {
@@ -481,10 +769,30 @@ fn check_model(name: &str, path: &std::path::Path, su: SpeedUnit, gu: GradeUnit,
         let s_last = *sx.last().unwrap();
         let g_last = *gx.last().unwrap();
         for (s, g, cs, cg) in [
-            (slo - 5.0, glo + (ghi - glo) * 0.4, sx[0], glo + (ghi - glo) * 0.4),
-            (shi + 25.0, glo + (ghi - glo) * 0.4, s_last, glo + (ghi - glo) * 0.4),
-            (slo + (shi - slo) * 0.3, glo - 0.5, slo + (shi - slo) * 0.3, gx[0]),
-            (slo + (shi - slo) * 0.3, ghi + 0.5, slo + (shi - slo) * 0.3, g_last),
+            (
+                slo - 5.0,
+                glo + (ghi - glo) * 0.4,
+                sx[0],
+                glo + (ghi - glo) * 0.4,
+            ),
+            (
+                shi + 25.0,
+                glo + (ghi - glo) * 0.4,
+                s_last,
+                glo + (ghi - glo) * 0.4,
+            ),
+            (
+                slo + (shi - slo) * 0.3,
+                glo - 0.5,
+                slo + (shi - slo) * 0.3,
+                gx[0],
+            ),
+            (
+                slo + (shi - slo) * 0.3,
+                ghi + 0.5,
+                slo + (shi - slo) * 0.3,
+                g_last,
+            ),
             (slo - 1e-9, glo - 1e-12, sx[0], gx[0]),
             (shi + 1e-9, ghi + 1e-12, s_last, g_last),
             (shi + 1000.0, ghi + 10.0, s_last, g_last),
@@ -498,10 +806,27 @@ fn check_model(name: &str, path: &std::path::Path, su: SpeedUnit, gu: GradeUnit,
                     if close(v, c, 1e-9) {
                         st.pass("outside_grid_is_nearest_boundary");
                     } else {
-                        st.violation("interpolated_model", "outside_grid_is_nearest_boundary", 0, || format!("f({}, {}) = {} but at the clamped point ({}, {}) = {}", s, g, v, cs, cg, c), case);
+                        st.violation(
+                            "interpolated_model",
+                            "outside_grid_is_nearest_boundary",
+                            0,
+                            || {
+                                format!(
+                                    "f({}, {}) = {} but at the clamped point ({}, {}) = {}",
+                                    s, g, v, cs, cg, c
+                                )
+                            },
+                            case,
+                        );
                     }
                 }
-                (a, b) => st.violation("interpolated_model", "outside_grid_does_not_fail", 0, || format!("{:?} / {:?}", a, b), case),
+                (a, b) => st.violation(
+                    "interpolated_model",
+                    "outside_grid_does_not_fail",
+                    0,
+                    || format!("{:?} / {:?}", a, b),
+                    case,
+                ),
             }
         }
         // inputs that are not finite numbers: an infinite speed or grade is the boundary on that side, and a NaN (a gap in a
@@ -529,17 +854,42 @@ fn check_model(name: &str, path: &std::path::Path, su: SpeedUnit, gu: GradeUnit,
                         if close(v, c, 1e-9) {
                             st.pass("infinite_input_is_the_boundary");
                         } else {
-                            st.violation("interpolated_model.non_finite_input", "outside_grid_is_nearest_boundary", 0, || format!("f({}, {}) = {} but at the boundary point {:?} = {}", s, g, v, clamped, c), case);
+                            st.violation(
+                                "interpolated_model.non_finite_input",
+                                "outside_grid_is_nearest_boundary",
+                                0,
+                                || {
+                                    format!(
+                                        "f({}, {}) = {} but at the boundary point {:?} = {}",
+                                        s, g, v, clamped, c
+                                    )
+                                },
+                                case,
+                            );
                         }
                     }
                     (Ok(Ok(v)), None) if v.is_finite() => st.pass("nan_input_does_not_fail"),
-                    (a, _) => st.violation("interpolated_model.non_finite_input", "outside_grid_does_not_fail", 0, || format!("f({}, {}) -> {:?}", s, g, a), case),
+                    (a, _) => st.violation(
+                        "interpolated_model.non_finite_input",
+                        "outside_grid_does_not_fail",
+                        0,
+                        || format!("f({}, {}) -> {:?}", s, g, a),
+                        case,
+                    ),
                 }
             }
         }
         // every speed / grade input unit: cell centres expressed in another unit stay within the surrounding corner values
-        let centre_s: Vec<usize> = if sb > 12 { vec![3, sb / 2 - 3, sb - 4] } else { (0..sb - 1).collect() };
-        let centre_g: Vec<usize> = if gb > 12 { vec![2, gb / 2 + 2, gb - 4] } else { (0..gb - 1).collect() };
+        let centre_s: Vec<usize> = if sb > 12 {
+            vec![3, sb / 2 - 3, sb - 4]
+        } else {
+            (0..sb - 1).collect()
+        };
+        let centre_g: Vec<usize> = if gb > 12 {
+            vec![2, gb / 2 + 2, gb - 4]
+        } else {
+            (0..gb - 1).collect()
+        };
         for isu in crate::refmodel::units::SPEED_UNITS.iter() {
             for igu in crate::refmodel::units::GRADE_UNITS.iter() {
                 for ci in centre_s.iter() {
@@ -551,21 +901,44 @@ fn check_model(name: &str, path: &std::path::Path, su: SpeedUnit, gu: GradeUnit,
                         let (s, g) = ((s0 + s1) / 2.0, (g0 + g1) / 2.0);
                         // the same physical point expressed in the input unit (physical factors)
                         let s_in = crate::refmodel::units::speed(s, &su, isu);
-                        let g_in = g * crate::refmodel::units::grade_dec(&gu) / crate::refmodel::units::grade_dec(igu);
+                        let g_in = g * crate::refmodel::units::grade_dec(&gu)
+                            / crate::refmodel::units::grade_dec(igu);
                         let corners = [under(s0, g0), under(s0, g1), under(s1, g0), under(s1, g1)];
                         let cmin = corners.iter().cloned().fold(f64::INFINITY, f64::min);
                         let cmax = corners.iter().cloned().fold(f64::NEG_INFINITY, f64::max);
                         let slack = 1e-9 * (cmax.abs().max(cmin.abs()) + 1.0);
                         let case = || json!({"kind": "model_units", "model": name, "grid": grid_desc, "speed": s_in, "speed_unit": isu.to_string(), "grade": g_in, "grade_unit": igu.to_string()});
-                        match guarded(|| model.predict((Speed::new(s_in), *isu), (Grade::new(g_in), *igu)).map(|r| r.0.as_f64()).map_err(|e| e.to_string())) {
+                        match guarded(|| {
+                            model
+                                .predict((Speed::new(s_in), *isu), (Grade::new(g_in), *igu))
+                                .map(|r| r.0.as_f64())
+                                .map_err(|e| e.to_string())
+                        }) {
                             Ok(Ok(v)) => {
                                 if v >= cmin - slack && v <= cmax + slack {
                                     st.pass("input_units_are_converted");
                                 } else {
-                                    st.violation("interpolated_model.input_units", "between_surrounding_grid_values", 0, || format!("{} {} / {} {}: prediction {} outside [{}, {}]", s_in, isu, g_in, igu, v, cmin, cmax), case);
+                                    st.violation(
+                                        "interpolated_model.input_units",
+                                        "between_surrounding_grid_values",
+                                        0,
+                                        || {
+                                            format!(
+                                                "{} {} / {} {}: prediction {} outside [{}, {}]",
+                                                s_in, isu, g_in, igu, v, cmin, cmax
+                                            )
+                                        },
+                                        case,
+                                    );
                                 }
                             }
-                            other => st.violation("interpolated_model.input_units", "predicts", 0, || format!("{:?}", other), case),
+                            other => st.violation(
+                                "interpolated_model.input_units",
+                                "predicts",
+                                0,
+                                || format!("{:?}", other),
+                                case,
+                            ),
                         }
                     }
                 }
@@ -589,8 +962,16 @@ pub fn run(tier: Tier) -> i32 {
             let declared = [
                 (SpeedUnit::MilesPerHour, GradeUnit::Decimal, *eru),
                 (SpeedUnit::KilometersPerHour, GradeUnit::Decimal, *eru),
-                (SpeedUnit::MilesPerHour, GradeUnit::Percent, EnergyRateUnit::KilowattHoursPerKilometer),
-                (SpeedUnit::MetersPerSecond, GradeUnit::Decimal, EnergyRateUnit::KilowattHoursPerMeter),
+                (
+                    SpeedUnit::MilesPerHour,
+                    GradeUnit::Percent,
+                    EnergyRateUnit::KilowattHoursPerKilometer,
+                ),
+                (
+                    SpeedUnit::MetersPerSecond,
+                    GradeUnit::Decimal,
+                    EnergyRateUnit::KilowattHoursPerMeter,
+                ),
             ];
             for (di, (su, gu, eru)) in declared.iter().enumerate() {
                 if tier == Tier::Quick && di != 0 && di != 1 + (i as usize % 3) {
@@ -618,12 +999,19 @@ pub fn run(tier: Tier) -> i32 {
 pub fn replay(case: &Value) -> i32 {
     // generic cases: the whole generic part is run again (it takes about a second and contains the recorded grid and point);
     // model cases: the recorded model is run again under every unit declaration and every grid
-    let c = if case.get("case").is_some() { &case["case"] } else { case };
+    let c = if case.get("case").is_some() {
+        &case["case"]
+    } else {
+        case
+    };
     let mut st = Stats::new();
     match c["kind"].as_str() {
         Some(k) if k.starts_with("model") => {
             let name = c["model"].as_str().unwrap_or("");
-            match model_files(Tier::Thorough).into_iter().find(|m| m.0 == name) {
+            match model_files(Tier::Thorough)
+                .into_iter()
+                .find(|m| m.0 == name)
+            {
                 None => {
                     println!("MACHINERY-ERROR model {} not found", name);
                     return 2;
@@ -632,8 +1020,16 @@ pub fn replay(case: &Value) -> i32 {
                     for (su, gu, eru) in [
                         (SpeedUnit::MilesPerHour, GradeUnit::Decimal, eru),
                         (SpeedUnit::KilometersPerHour, GradeUnit::Decimal, eru),
-                        (SpeedUnit::MilesPerHour, GradeUnit::Percent, EnergyRateUnit::KilowattHoursPerKilometer),
-                        (SpeedUnit::MetersPerSecond, GradeUnit::Decimal, EnergyRateUnit::KilowattHoursPerMeter),
+                        (
+                            SpeedUnit::MilesPerHour,
+                            GradeUnit::Percent,
+                            EnergyRateUnit::KilowattHoursPerKilometer,
+                        ),
+                        (
+                            SpeedUnit::MetersPerSecond,
+                            GradeUnit::Decimal,
+                            EnergyRateUnit::KilowattHoursPerMeter,
+                        ),
                     ] {
                         check_model(&name, &path, su, gu, eru, Tier::Thorough, &mut st);
                     }
@@ -649,7 +1045,11 @@ pub fn replay(case: &Value) -> i32 {
     for (k, g) in st.violations.iter() {
         println!("REPLAY-VIOLATION {} ({} cases) {}", k, g.count, g.detail);
     }
-    println!("replay: {} violated clauses over {} evaluations", st.violations.len(), st.evaluations);
+    println!(
+        "replay: {} violated clauses over {} evaluations",
+        st.violations.len(),
+        st.evaluations
+    );
     if st.violations.is_empty() {
         0
     } else {
